@@ -47,6 +47,19 @@ CLAIMS = {
  "C20": dict(technique="exhaustive fault enumeration: every single fault of the catalogue x position x base program x method x before/after a first transcription, executed on the real rockit under a blocking solver spy",
              text="33 fault kinds x applicable bases x positions x 5 method configurations x before/after transcription: an exception by solve time and zero NLPs handed to the solver; every base x method has a fault-free twin that must reach the solver.",
              design="DESIGN.md 6 (C20)"),
+
+ "C07": dict(technique="exhaustive enumeration of expression ASTs (bounded depth) x grid options x method configurations on the real rockit, symbolic samples evaluated at a generic decision vector and compared with the numpy interpreter on the sampled ingredients; numeric read-back driven through a solver-free solution object",
+             text="Every AST up to depth 2 (quick) / 3 (thorough) over 12 atoms with unary/binary/shape constructors x 7 grid options x 9-12 method configurations: sampling commutes with evaluation, value(e) likewise, sol.sample/sol.value equal the symbolic path with the [i,r,c] shape rule and one time stamp per entry, and the sampled ingredients equal independent references (declared per-interval values, interval controls, collocation polynomial of z).",
+             design="DESIGN.md 4 (C07)"),
+ "C15": dict(technique="exhaustive enumeration of polynomial constraint forms x methods x N,M x grids; for every alphabet direction the boundary of the certificate's feasible set is located on the real NLP rows by bisection and the exact minimum of the constraint's slack along the scheme's own polynomial is evaluated there",
+             text="9 polynomial constraint forms x {SS rk, MS rk, DC degree 4} x N<=3 x M x {uniform, geometric, free} x horizon: at the first crossing of the certificate boundary along 3 generic and all signed unit directions the true slack over all times (polynomial arithmetic) is >= 0; programs without a guarantee raise before the solver is called; slack left at the boundary does not grow from M=1 to 4.",
+             design="DESIGN.md 5 (C15)"),
+ "C16": dict(technique="exhaustive enumeration of expression ASTs (bounded depth) x ODE models x generic points against a forward-mode dual-number interpreter; enumeration of control orders x methods for the derivative chain; B-spline signal derivatives against the analytic spline derivative",
+             text="Every AST up to depth 2/3 over {x_i, y, t, global parameter, global variable} x 5 models x 3 points: der(e) equals the dual-number derivative along (rhs,1); control orders 1..4 x methods: chain structure, der^(k+1) raises, Taylor identities at a feasible point; der/der(der) of spline parameters vs scipy.",
+             design="DESIGN.md 4 (C16)"),
+ "C17": dict(technique="exhaustive enumeration of (order x N x grid x refinement) for the basis matrices against an independent Cox-de Boor (entry-wise, so all coefficient vectors are decided), of signal programs x methods, and of integrator-chain systems under SplineMethod (Taylor identities, row multisets, agreement with MultipleShooting, inf-constraint soundness by boundary search)",
+             text="Order 0..4 x N<=8 x 3 grids x refinements 1..5: eval_on_knots / Greville / bspline_derivative equal scipy's clamped B-splines; B-spline parameters and variables in real OCPs (SplineMethod, MS, DC) are sampled as those splines, gist coefficients sit at Greville points; SplineMethod chain dynamics hold as exact Taylor identities, path rows sit at every refined point, MS's gaps vanish at the sampled spline trajectory, grid='inf' rows are sound.",
+             design="DESIGN.md 4 (C17)"),
 }
 NOTE = "Trusted: CasADi Function evaluation and Opti bookkeeping (x,p,f,g,lbg,ubg,initial), numpy/scipy, the reference model (written from the property statements, cross-checked against textbook closed forms). Numeric quantifiers are closed by a fixed generic-point alphabet (a stated bound), configuration quantifiers by the stated deviation/depth bound."
 
